@@ -168,7 +168,7 @@ def m_systemtime_now(c):
     return Agg([now_value(c.ip, 'systime')], 'SystemTime')
 
 
-@model(r'^(?:std::time::)?Duration::(from_millis|from_secs|from_micros|from_nanos)$')
+@model(r'^(?:\w+::)*Duration::(from_millis|from_secs|from_micros|from_nanos)$')
 def m_duration_from(c, v):
     ip = c.ip
     mul = {'from_millis': 10 ** 6, 'from_secs': 10 ** 9, 'from_micros': 10 ** 3, 'from_nanos': 1}[c.m.group(1)]
@@ -177,7 +177,7 @@ def m_duration_from(c, v):
     return Agg([bv(128, z3.ZeroExt(64, v.v) * z3.BitVecVal(mul, 128))], 'Duration')
 
 
-@model(r'^(?:std::time::)?Duration::(as_millis|as_secs|as_micros|as_nanos)$')
+@model(r'^(?:\w+::)*Duration::(as_millis|as_secs|as_micros|as_nanos)$')
 def m_duration_as(c, d):
     ip = c.ip
     d = deref(ip, d) if isinstance(d, Ptr) else d
@@ -199,7 +199,7 @@ def m_rand_random(c):
     return c.ip.fresh(it[0], 'rand')
 
 
-@model(r'^rand::thread_rng$|^rand::rngs::thread::thread_rng$')
+@model(r'^(?:rand::)?(?:rngs::thread::)?thread_rng$')
 def m_thread_rng(c):
     return Opaque('ThreadRng', 'rng')
 
@@ -216,7 +216,7 @@ def m_gen_range(c, rng, r):
     return v
 
 
-@model(r'^<\[.*\] as rand::seq::SliceRandom>::shuffle::<')
+@model(r'^<\[.*\] as (?:rand::seq::)?SliceRandom>::shuffle::<')
 def m_shuffle(c, s, rng):
     """Shuffle: result is *some* permutation.  Modelled as a nondeterministic choice of permutation
     for up to 3 elements (all 6), identity+reverse beyond (recorded as a bound)."""
@@ -225,6 +225,7 @@ def m_shuffle(c, s, rng):
     sq = seq(ip, s)
     n = len(sq.items)
     if n <= 1:
+        ip.env.setdefault('shuffles', []).append(list(sq.items))
         return unit()
     perms = list(itertools.permutations(range(n))) if n <= 3 else [tuple(range(n)), tuple(reversed(range(n)))]
     if n > 3:
@@ -235,6 +236,7 @@ def m_shuffle(c, s, rng):
     old = list(sq.items)
     for i, j in enumerate(perms[k]):
         base.items[off + i] = old[j]
+    ip.env.setdefault('shuffles', []).append(list(base.items[off:off + n]))
     return unit()
 
 
@@ -374,3 +376,90 @@ def m_sender_send_async(c, p, *a):
 def m_bytes_clone(c, p):
     v = deref(c.ip, p) if isinstance(p, Ptr) else p
     return v
+
+
+# ----------------------------------------------------------------------------- chrono (seconds resolution is all pgcat uses)
+@model(r'^(?:chrono::offset::|chrono::)?Utc::now$')
+def m_utc_now(c):
+    return Agg([now_value(c.ip, 'utc_secs')], 'DateTime')
+
+
+@model(r'^(?:chrono::)?DateTime::<.*>::naive_utc$')
+def m_naive_utc(c, d):
+    d = deref(c.ip, d) if isinstance(d, Ptr) else d
+    return Agg([d.fields[0]], 'NaiveDateTime')
+
+
+@model(r'^(?:chrono::naive::|chrono::)?NaiveDateTime::(timestamp|and_utc)$|^(?:chrono::)?DateTime::<.*>::timestamp$')
+def m_naive_timestamp(c, d):
+    d = deref(c.ip, d) if isinstance(d, Ptr) else d
+    if c.m.group(1) == 'and_utc':
+        return Agg([d.fields[0]], 'DateTime')
+    return d.fields[0]
+
+
+@model(r'^(?:std::time::)?SystemTime::(elapsed)$|^(?:std::time::|tokio::time::)?Instant::(elapsed)$')
+def m_time_elapsed(c, t):
+    """now - t with a fresh non-decreasing `now` (nanoseconds).  SystemTime::elapsed returns Ok unless t is in the future."""
+    ip = c.ip
+    t = deref(ip, t) if isinstance(t, Ptr) else t
+    is_sys = 'SystemTime' in c.callee
+    now = now_value(ip, 'systime' if is_sys else 'instant')
+    t0 = t.fields[0]
+    if is_sys and ip.branch(ip.binop('Lt', now, t0, False, 'elapsed'), 'clock_skew'):
+        return err(ip, Opaque('SystemTimeError', 'skew'))
+    if not is_sys:
+        ip.assume(as_cond(ip.binop('Ge', now, t0, False, 'elapsed')))
+    d = ip.binop('Sub', now, t0, False, 'elapsed')
+    dur = Agg([BV(128, d.v) if d.concrete else bv(128, z3.ZeroExt(64, d.v))], 'Duration')
+    return ok(ip, dur) if is_sys else dur
+
+
+@model(r'^(?:std::time::|tokio::time::)?Instant::(duration_since)$')
+def m_instant_duration_since(c, a, b):
+    ip = c.ip
+    a = deref(ip, a) if isinstance(a, Ptr) else a
+    b = deref(ip, b) if isinstance(b, Ptr) else b
+    d = ip.binop('Sub', a.fields[0], b.fields[0], False, 'duration_since')
+    return Agg([BV(128, d.v) if d.concrete else bv(128, z3.ZeroExt(64, d.v))], 'Duration')
+
+
+# ----------------------------------------------------------------------------- tokio::time::timeout
+@model(r'^tokio::time::timeout::<')
+def m_timeout(c, dur, fut):
+    c.ip.env.setdefault('timeouts', []).append(dur)
+    return Opaque('Timeout', 'timeout', (dur, fut))
+
+
+@model(r'^<tokio::time::Timeout<.*> as (?:futures::|std::future::)?Future>::poll$')
+def m_timeout_poll(c, pin, cx):
+    """tokio contract: either the deadline elapses first (Err(Elapsed)) or the inner future completes (Ok(output)).
+    Which one is a symbolic choice (the environment decides how slow the peer is)."""
+    ip = c.ip
+    ptr = pin.fields[0]
+    t = ip.load(ptr.cell, ptr.path)
+    dur, fut = t.data
+    if ip.choose(2, 'timeout_elapses') == 1:
+        ip.env.setdefault('timeouts_elapsed', []).append(dur)
+        ip.env.setdefault('events', []).append(('timeout_elapsed',))
+        return poll_ready(ip, err(ip, Opaque('Elapsed', 'elapsed')))
+    out = ip.drive(fut)
+    ip.env.setdefault('events', []).append(('timeout_inner_done',))
+    return poll_ready(ip, ok(ip, out))
+
+
+@model(r'^(?:std::vec::)?Vec::<.*>::(retain)::<')
+def m_vec_retain(c, p, f):
+    ip = c.ip
+    s = seq(ip, p)
+    keep = []
+    for v in list(s.items):
+        if ip.branch(ip.call_value(f, [Ptr(Cell(v, 'retain'), ())]), 'retain'):
+            keep.append(v)
+    s.items[:] = keep
+    return unit()
+
+
+@model(r'^(?:\w+::)*slice::<impl \[.*\]>::(sort_by|sort_by_key|sort_unstable_by)::<')
+def m_sort_by(c, p, f):
+    raise Inconclusive("sort_by on the explored path (load-balancing by outstanding connections / error counts is outside the claim)")
